@@ -79,6 +79,11 @@ pub fn add_transfer<S: Into<String>, H: Into<Addr>>(
     from: H,
     contract_address: H,
 ) -> Response {
+    // nothing to move: neither the bank nor the marker module accepts a zero amount
+    if amount == 0 {
+        return response;
+    }
+
     match is_restricted {
         true => {
             response = response.add_message(
